@@ -1,11 +1,14 @@
 package t0095
 
+type G2 struct {
+	F0x0x0 int32
+}
+
 type G1 struct {
-	F2x0 *float32
+	F0x0 *G2
 }
 
 type T struct {
-	F0 *int32
-	F1 int64
-	F2 G1
+	F0 *G1
+	F1 *int64
 }
